@@ -470,6 +470,38 @@ def builtin_mix_programs():
     return out
 
 
+# ---- special methods are attributes too: what len() / repr() / str() / iter() / in / [] / with find when the method is defined on a base
+# class, on a mixin further along the MRO, or overridden in between.
+SPECIAL_DEFS = {
+    '__len__': ('def __len__(self):\n        return %d', 'len(o)'),
+    '__repr__': ('def __repr__(self):\n        return "repr%d"', 'repr(o)'),
+    '__str__': ('def __str__(self):\n        return "str%d"', 'str(o)'),
+    '__getitem__': ('def __getitem__(self, k):\n        return (%d, k)', 'o[5]'),
+    '__contains__': ('def __contains__(self, k):\n        return k == %d', '(1 in o, 2 in o, 3 in o)'),
+    '__iter__': ('def __iter__(self):\n        return iter([%d])', 'list(o)'),
+    '__enter__': ('def __enter__(self):\n        return %d\n    def __exit__(self, a, b, c):\n        return False', 'w(o)'),
+}
+SPECIAL_SHAPES = {
+    'direct': 'class A:\n    %(d1)s\nO = A\n',
+    'inherited': 'class A:\n    %(d1)s\nclass B(A):\n    pass\nO = B\n',
+    'inherited-twice': 'class A:\n    %(d1)s\nclass B(A):\n    pass\nclass C(B):\n    pass\nO = C\n',
+    'mixin-second': 'class M:\n    pass\nclass A:\n    %(d1)s\nclass B(M, A):\n    pass\nO = B\n',
+    'overridden': 'class A:\n    %(d1)s\nclass B(A):\n    %(d2)s\nclass C(B):\n    pass\nO = C\n',
+    'diamond': 'class A:\n    %(d1)s\nclass B(A):\n    pass\nclass C(A):\n    %(d2)s\nclass D(B, C):\n    pass\nO = D\n',
+    'diamond-left': 'class A:\n    %(d1)s\nclass B(A):\n    %(d3)s\nclass C(A):\n    %(d2)s\nclass D(B, C):\n    pass\nO = D\n',
+}
+
+
+def special_method_programs():
+    out = []
+    pre = 'def w(o):\n    with o as v:\n        return v\n'
+    for name, (d, use) in SPECIAL_DEFS.items():
+        for shape, tmpl in SPECIAL_SHAPES.items():
+            src = pre + tmpl % {'d1': d % 1, 'd2': d % 2, 'd3': d % 3} + 'o = O()\ntry:\n    print(%s)\nexcept TypeError:\n    print("TypeError")\nexcept AttributeError:\n    print("AttributeError")\n' % use
+            out.append({'id': 'spm-%s-%s' % (name.strip('_'), shape), 'src': src, 'method': name, 'shape': shape})
+    return out
+
+
 def run(tier, rep):
     r = rng(PID, 'gen')
     extra = {'oracle_disagreement': 0, 'programs': 0, 'hierarchies': 0, 'inconsistent_hierarchies': 0, 'distinct_mros': 0,
@@ -620,6 +652,22 @@ def run(tier, rep):
                 rep.violation('C16|builtin-base|%s|base=%s|pos=%s|class=%s|%s' % (kind, c['base'], c['pos'], x.split(' ')[0], detail or ('escaped:%s' % g.get('exc') if y is None and g.get('exc') else 'differs')),
                               {'case': {'id': c['id'], 'src': c['src']}, 'expected': x, 'got': y, 'exc': g.get('exc'), 'excmsg': g.get('excmsg')})
                 break
+    # ---- special methods found along the MRO ----------------------------------------------------------------
+    sm = special_method_programs()
+    sexp = oracle_exec(sm)
+    sgot, _ = run_vrun('exec', sm)
+    extra['special_method_programs'] = 0
+    for c in sm:
+        e, g = sexp.get(c['id']) or {}, sgot.get(c['id'])
+        if g is None or e.get('oracle_failed') or e.get('exc') or e.get('cerr'):
+            rep.inconc('special-method program %s: no result' % c['id'])
+            continue
+        rep.evaluations += 1
+        extra['special_method_programs'] += 1
+        nontriv.add(('special', c['method'], c['shape']))
+        if g.get('panic') or g.get('crash') or g.get('exc') or g.get('out') != e.get('out'):
+            rep.violation('C16|special-method|%s|shape=%s|%s' % (c['method'], c['shape'], 'panic' if g.get('panic') or g.get('crash') else ('escaped:%s' % g['exc'] if g.get('exc') else 'got=' + (g.get('out') or '').strip()[:20])),
+                          {'case': {'id': c['id'], 'src': c['src']}, 'expected': e.get('out'), 'got': {k: short(v, 600) for k, v in g.items() if k in ('out', 'exc', 'excmsg', 'panic', 'stack')}})
     rep.nontrivial = nontriv
     rep.samples = samples or [{'program_excerpt': cases[-10]['src'][:400]}]
     rep.rule = ('hierarchies: every DAG of n classes with <=3 ordered distinct bases per class whose first n-1 class statements are consistent (quick: n=1..4 all (%s hierarchies); thorough: n<=5 all, n=6 6000 seeded samples); '
